@@ -86,7 +86,7 @@ class C10(Check):
         slots = sorted(rng.sample(range(8), len(ncchs)))
         table = [(0, 0)] * 8
         body = bytearray()
-        cur = rng.pick([0x20, 0x21, 0x40])           # first partition, in media units
+        cur = rng.pick([1, 2, 0xB, 0x10, 0x1F, 0x20, 0x20, 0x21, 0x40, 0x40, 0x1234])           # first partition, in media units: anywhere after the header
         placed = {}
         for slot, (d, img) in zip(slots, ncchs):
             cur += rng.pick([0, 0, 1, 3])
